@@ -145,6 +145,15 @@ def _witness(P, R, fn):
             a, val = A.norm_bool(g["cond"], g["polarity"])
             if a == "goal.is_negated" and val is True:
                 why = why or "negated goal (closed world)"
+            # `sub_goals.iter_mut().all(|g| self.search_recursive..(g, ..))` is the sub-goal conjunction without a flag
+            core = strip(g["cond"])
+            if core[0] == "call" and core[4] == "std::iter::Iterator::all" and val is True and A.norm_bool(g["cond"], True)[1] is True:
+                for x in walk(core):
+                    if x[0] == "agg" and str(x[1]).startswith("closure:"):
+                        cf = P.fns.get(x[1][len("closure:"):])
+                        rs_ = A.returned_syms(cf) if cf else []
+                        if len(rs_) == 1 and strip(rs_[0][1])[0] == "call" and strip(rs_[0][1])[1] == fn.name:
+                            why = why or "all sub-goals returned true (iter.all over the recursive search)"
         if why is None:
             R.violate("a", "unwitnessed-true:%s" % vtxt, "search_recursive_with_execution returns `%s` at %s without a dominating goal check on the same goal (no check_goal_in_facts true edge, no sub-goal conjunction, not a negated goal)" % (vtxt, fn.loc(d[3][0])), fn, d[3][0])
             continue
